@@ -68,6 +68,7 @@ def run(rep, facts, tier):
         raise CheckBroken('participant_cleanup: no push to the removal list found')
     expired_edges = []
     seen_cmp = []
+    resolution = []
     for sbb, tg, cond, lab in switch_edges(pc, fx, og):
         if cond[0] != 'call' or not cond[1].startswith('std::cmp::PartialOrd::') or not isinstance(lab, bool):
             continue
@@ -90,6 +91,15 @@ def run(rep, facts, tier):
         seen_cmp.append((sbb, tg, rel))
         if rel == '>':
             expired_edges.append((sbb, tg))
+        # both operands at full resolution (added after seed C12g: the silence cut to whole seconds keeps a participant with a fractional lease up to a second too long)
+        coarse = sorted(set(x[1].rsplit('::', 1)[-1] for t_ in (a, b) for x in _subterms12(t_) if x[0] == 'call' and x[1].rsplit('::', 1)[-1] in COARSE_CALLS) |
+                        set('cast' for t_ in (a, b) for x in _subterms12(t_) if x[0] == 'cast') |
+                        set(str(x[1]) for t_ in (a, b) for x in _subterms12(t_) if x[0] == 'bin' and str(x[1]) in ('Div', 'Rem', 'Shr', 'BitAnd')))
+        resolution.append((sbb, coarse))
+    bad = sorted(set(c for _bb, cs in resolution for c in cs))
+    rep.check(not bad, 'R12.1', 'participant_cleanup/full-resolution', 'silence and lease compared at full resolution (no truncating conversion in either operand)',
+              'participant_cleanup compares the silence with the lease after a truncating conversion (%s): a participant whose lease is not a multiple of the coarser unit is kept '
+              'past its lease (or dropped early)' % ', '.join(bad), pc.where())
     rep.check(bool(seen_cmp), 'R12.1', 'participant_cleanup/comparison', 'lease comparison found: %s' % sorted(set(r for _, _, r in seen_cmp)),
               'no comparison of (now - last life sign) against (lease_duration | DEFAULT) found in participant_cleanup', pc.where())
     for k, p in enumerate(pushes):
@@ -636,3 +646,21 @@ def rule_rediscovery(rep, fx):
                 why = 'a path for a new participant skips %s' % what.rsplit('::', 1)[-1]
     rep.check(ok, 'R12.9', '%s/new-participant-replayed' % d.key.rsplit('::', 1)[-1], 'was new => ParticipantDiscovered reported, subscriptions and publications of that prefix replayed',
               'Discovery does not act on a new (or returning) participant on every path (%s): endpoints restored from the attic are never matched with the local ones' % why, d.where())
+
+
+COARSE_CALLS = ('as_secs', 'as_millis', 'as_micros', 'subsec_nanos', 'subsec_micros', 'subsec_millis', 'as_secs_f32', 'as_secs_f64', 'from_secs', 'from_millis', 'from_micros',
+                'seconds', 'from_secs_f32', 'from_secs_f64', 'trunc', 'floor', 'round', 'ceil')
+
+
+def _subterms12(t):
+    out = [t]
+    if isinstance(t, tuple):
+        for x in t[1:]:
+            if isinstance(x, tuple):
+                if x and isinstance(x[0], str):
+                    out.extend(_subterms12(x))
+                else:
+                    for y in x:
+                        if isinstance(y, tuple):
+                            out.extend(_subterms12(y))
+    return out
